@@ -310,14 +310,14 @@ def check(rep):
         cases.append((uri, None, 'literal'))
     # full omission lattice x schemes
     names = ['user', 'pass', 'host', 'port', 'vhost', 'opts']
-    for rounds in range(1 if not thorough else 6):
+    for rounds in range(2 if not thorough else 6):
         for bits in itertools.product([False, True], repeat=6):
             for tls in (False, True):
                 c = rand_components(rng, dict(zip(names, bits)))
                 c['tls'] = tls
                 cases.append((render(c), c, 'lattice'))
                 cases.append((render(c, rng), c, 'lattice-variant'))
-    n = 1500 if not thorough else 60000
+    n = 6000 if not thorough else 60000
     for i in range(n):
         c = rand_components(rng)
         if i % 3 == 0:
@@ -328,7 +328,7 @@ def check(rep):
             extra = rng.sample(['poller=select', 'x=1', 'y', 'heartbeat=', 'foo=%26', 'ssl_version=protocol_tlsv1_2' if c['tls'] else 'a=b'],
                                rng.randint(1, 2))
             cases.append((render(c, rng, extra), c, 'extra-options'))
-    for i in range(1200 if not thorough else 40000):
+    for i in range(5000 if not thorough else 40000):
         c = rand_components(rng)
         uri, kind = mutate(rng, render(c, rng if rng.random() < 0.5 else None))
         if rng.random() < 0.25:
@@ -375,7 +375,7 @@ def check(rep):
             expect.append(cps(uri))
             meta.append({'render': uri, 'kind': label})
     # library fragments on their own: unquote / quote / int
-    for i in range(600 if not thorough else 20000):
+    for i in range(3000 if not thorough else 20000):
         t = rand_text(rng, 0, 8)
         k = i % 4
         if k == 0:
